@@ -34,6 +34,8 @@ class WindyGridWorld(GridMDP):
         self.step_cost = step_cost
         self.wall_bump_cost = wall_bump_cost
         self.wind_probability = wind_probability
+        if feature_rewards is None:
+            feature_rewards = {}
         self.feature_rewards = feature_rewards
         super().__init__(grid)
 
